@@ -136,6 +136,7 @@ type PathSum struct {
 	noInline  map[*ssa.Function]bool
 	inlineLoops map[*ssa.Function]bool
 	asEvents    map[*ssa.Function]string // extra per-run event functions (summarised callees)
+	inlinePkgs  map[string]bool          // additional packages whose functions are inlined
 	roles     *psRoles
 	maxSeen   int
 }
@@ -196,6 +197,10 @@ func newPathSum(cx *Ctx) *PathSum {
 	ev("PolicyUpdate", "policy", "update")
 	ev("PolicyAccess", "policy", "access")
 	ev("SetMaximumSize", "policy", "setMaximumSize")
+	ev("SketchIncrement", "sketch", "increment")
+	ev("SketchEnsure", "sketch", "ensureCapacity")
+	ev("SketchFrequency", "sketch", "frequency")
+	ev("Admit", "policy", "admit")
 	if f := P.Func("", "", "newPanicError"); f != nil {
 		r.eventFns[origin(f)] = "NewPanicError"
 	}
@@ -280,6 +285,12 @@ func (ps *PathSum) load(s *psState, addr string, f *psFrame, t types.Type) strin
 			return v
 		}
 		loc := addr[1:]
+		// memory that an opaque callback may have changed is re-read as a new symbol
+		if strings.HasPrefix(loc, "param:p.") {
+			if e, ok := s.cells["&epoch:param:p"]; ok {
+				return "load(" + loc + "@" + e + ")"
+			}
+		}
 		// field of a struct copied from elsewhere
 		if i := strings.LastIndex(loc, "."); i > 0 {
 			if src, ok := s.cells["&structof:"+loc[:i]]; ok {
@@ -374,7 +385,15 @@ func relevantAtom(a string) bool {
 	if strings.HasPrefix(a, "user:") && !strings.Contains(a, "(") {
 		return true // boolean results of user callbacks (cancel flags)
 	}
-	if strings.HasPrefix(a, "load(") && (strings.HasSuffix(a, ".isNotFound)") || strings.HasSuffix(a, ".isFake)") || strings.HasSuffix(a, ".isRefresh)") || strings.HasSuffix(a, ".isInitialized)")) {
+	for _, p := range []string{"InWindow(", "InMainProbation(", "InMainProtected(", "res:Contains#", "res:NotContains#"} {
+		if strings.HasPrefix(a, p) {
+			return true
+		}
+	}
+	if strings.HasPrefix(a, "(") && (strings.Contains(a, "Weight(") || strings.Contains(a, "eightedSize") || strings.Contains(a, "aximum")) {
+		return true // weight / capacity comparisons of the policy
+	}
+	if strings.HasPrefix(a, "load(") && (strings.HasSuffix(a, ".isNotFound)") || strings.HasSuffix(a, ".isFake)") || strings.HasSuffix(a, ".isRefresh)") || strings.HasSuffix(a, ".isInitialized)") || strings.HasSuffix(a, ".isExp)")) {
 		return true
 	}
 	return false
